@@ -234,6 +234,40 @@ theorem no_criteria (inner : Inner) (hin : InnerOK inner) (hosts : List Host) (r
     have := List.mem_filter.mp (fallbackChoice_sound inner hin hosts raw policy dflt d2 h hh)
     exact ⟨this.1, by simpa using this.2⟩
 
+/-- **criteria_sorted**: the criteria list the router builds from a criteria map (pairs in any iteration order, keys
+unique) is sorted by key and has exactly the map's pairs — the hypothesis `strictSorted` of the theorems above. -/
+theorem criteria_sorted (kvs : Path) (hnd : (kvs.map (·.1)).Nodup) :
+    strictSorted ((mkCriteria kvs).map (·.1)) = true ∧ ∀ kv, kv ∈ mkCriteria kvs ↔ kv ∈ kvs :=
+  ⟨mkCriteria_sorted kvs hnd, mem_mkCriteria kvs⟩
+
+/-- **request_exact** (the statement end to end, no sortedness hypothesis): for a request carrying the criteria *map*
+`kvs` (any iteration order), a chosen host is among the reference targets of `kvs`, a host is chosen when there is a
+target, and `HostNum`/`IsExistsHosts` describe the reference pool — for the filtering builder and, by
+`builders_equiv`, for the pre-index builder. -/
+theorem request_exact (inner : Inner) (hin : InnerOK inner) (hosts : List Host) (raw : List (List Key))
+    (policy : Nat) (dflt : Path) (shuf : List Val → List Val) (hshuf : ∀ l v, v ∈ shuf l ↔ v ∈ l)
+    (kvs : Path) (hnd : (kvs.map (·.1)).Nodup) (d1 d2 : Nat) :
+    (∀ lb, (lb = lbF hosts raw policy dflt ∨ lb = lbP shuf hosts raw policy dflt) →
+      (∀ h, chooseHost inner lb (.crit (mkCriteria kvs)) d1 d2 = some h → h ∈ specTargets hosts raw policy dflt kvs) ∧
+      (specTargets hosts raw policy dflt kvs ≠ [] → ∃ h, chooseHost inner lb (.crit (mkCriteria kvs)) d1 d2 = some h) ∧
+      hostNum lb (some (mkCriteria kvs)) = ((specPool hosts raw policy dflt kvs).length : Int) ∧
+      isExists lb (some (mkCriteria kvs)) = decide ((specPool hosts raw policy dflt kvs).length > 0)) := by
+  have hs := mkCriteria_sorted kvs hnd
+  have hm := mem_mkCriteria kvs
+  have hF := choose_exact inner hin hosts raw policy dflt (mkCriteria kvs) hs d1 d2
+  have hN := hostnum_exact hosts raw policy dflt (mkCriteria kvs) hs
+  rw [specTargets_congr hosts raw policy dflt _ kvs hm] at hF
+  rw [specPool_congr hosts raw policy dflt _ kvs hm] at hN
+  obtain ⟨_, hch, hnum, hex⟩ := builders_equiv hosts raw policy dflt shuf hshuf inner
+  intro lb hlb
+  rcases hlb with rfl | rfl
+  · exact ⟨hF.1, hF.2, hN.1, hN.2⟩
+  · refine ⟨?_, ?_, ?_, ?_⟩
+    · intro h hh; rw [← hch] at hh; exact hF.1 h hh
+    · intro hne; obtain ⟨h, hh⟩ := hF.2 hne; exact ⟨h, by rw [← hch]; exact hh⟩
+    · rw [← hnum]; exact hN.1
+    · rw [← hex]; exact hN.2
+
 /-- the round-robin inner balancer, as written in `roundRobinLoadBalancer.ChooseHost`, meets the inner contract. -/
 theorem round_robin_ok : InnerOK rrChoose := rrChoose_ok
 
@@ -308,6 +342,9 @@ example : selectorExists exRaw [("b", "1")] = false ∧
 example : (chooseHost rrChoose (lbF exHosts exRaw 2 [("b", "2")]) (.crit [("b", "1")]) 0 0).map (·.name) = some "h3" ∧
     chooseHost rrChoose (lbP id exHosts exRaw 0 []) (.crit [("b", "1")]) 0 0 = none := by decide
 example : InnerOK rrChoose := round_robin_ok
+-- a criteria map in reversed iteration order: the router's list is sorted and hits the [a, b] subset
+example : (([("b", "1"), ("a", "1")] : Path).map (·.1)).Nodup ∧ mkCriteria [("b", "1"), ("a", "1")] = [("a", "1"), ("b", "1")] ∧
+    (specTargets exHosts exRaw 0 [] [("b", "1"), ("a", "1")]).map (·.name) = ["h0"] := by decide
 
 /-- **health interaction, decided as inside the statement's fallback clause** ("no host in it" is read as "no host a
 load balancer can return"): the subset for `a=2` exists and contains only the unhealthy `h2`; with the any-endpoint
